@@ -11,9 +11,9 @@ import (
 
 // jsonSetters classifies the small methods of the JSON adapter by their effect on the top-of-stack state.
 type jsonRoles struct {
-	boolFields []string                   // bool fields of the state struct
-	setter     map[*ssa.Function]string  // method -> field it stores its bool parameter into
-	getter     map[*ssa.Function]string  // method -> bool field it returns
+	boolFields []string                 // bool fields of the state struct
+	setter     map[*ssa.Function]string // method -> field it stores its bool parameter into
+	getter     map[*ssa.Function]string // method -> bool field it returns
 	push, pop  *ssa.Function
 	current    *ssa.Function // returns the state kind of the top of the stack
 }
